@@ -179,11 +179,17 @@ func (c *picCtx) slotWrite(slot string, data []byte, i int) string {
 
 // ---- encoded length classes ------------------------------------------------------------------
 
-// picFill gives n bytes that differ from image to image and deflate quickly.
+// picFill gives n bytes that differ from image to image and from block to block and deflate quickly.
 func picFill(n, tok int) []byte {
 	b := make([]byte, n)
-	for i := range b {
-		b[i] = byte((i>>8)*tok + i)
+	for i := 0; i < n; i += 4096 {
+		k := i/4096*7 + tok
+		for j := 0; j < 4 && i+j < n; j++ {
+			b[i+j] = byte(k >> (8 * j))
+		}
+	}
+	if n > 0 {
+		b[n-1] = byte(tok) | 1
 	}
 	return b
 }
